@@ -12,3 +12,7 @@ pub use gob::decode_gob;
 pub use macroblock::decode_macroblock;
 pub use picture::decode_picture;
 pub use reader::H263Reader;
+
+/// Verification hook: the VLC table entry type, so that `H263Reader::read_vlc` can be driven with test tables.
+#[cfg(h263_rs_verif)]
+pub use vlc::{Entry, Table};
